@@ -37,7 +37,9 @@ Definition lmode_eqb (a b : lmode) : bool :=
 Inductive cop :=
 | CAdd (p : path) (v : Z)
 | CGetVal (p : path)            (* GetLeafValue = Get(path).Value() *)
-| CQuery (q : path)             (* Query; Walk has the same locking with q = [] *)
+| CQuery (q : path) (failat : option nat)
+    (* Query; Walk has the same locking with q = [].  [failat = Some k]: the
+       VisitFunc returns an error at its (k+1)-th call, which aborts the query *)
 | CDelete (q : path)             (* Delete as of repo commit 3480f62: per-node write locks *)
 | CDeleteUnlocked (q : path)     (* the code BEFORE 3480f62: root write lock only (defect C10_1) *)
 | CHValue (n : nat)             (* Leaf.Value through a retained handle to node n *)
@@ -48,6 +50,7 @@ Inductive cres :=
 | XVal (o : option Z)
 | XLeaves (l : list (path * Z))
 | XPaths (l : list path)
+| XFail (l : list (path * Z))    (* Query returned the visitor's error after visiting l *)
 | XUnit.
 
 (** a pending child visit of Query: node, its prefix, the remaining query *)
@@ -297,7 +300,7 @@ Definition start_pc (h : heap) (o : cop) : pc :=
   match o with
   | CAdd p v => PAddEnter 0%nat p v
   | CGetVal p => PGetEnter 0%nat p
-  | CQuery q => PQEnter 0%nat [] q [] []
+  | CQuery q _ => PQEnter 0%nat [] q [] []
   | CDelete q => PLDel q
   | CDeleteUnlocked q => PDel q
   | CHValue n => if Nat.ltb n (List.length h) then PHVal n else PDone (XVal None)
@@ -455,10 +458,25 @@ Definition local_step (h : heap) (p : pc) : heap * pc :=
 (** ** one step of one thread; [None]: blocked (or finished) *)
 Definition is_done (p : pc) : bool := match p with PDone _ => true | _ => false end.
 
+(** the visitor of a Query with [failat = Some k] returns an error at its
+    (k+1)-th call: enumerateChildren / queryInternal return that error at once
+    at every level, and every deferred RUnlock runs ([PUnwind]) *)
+Definition visit_override (o : cop) (p p' : pc) : pc :=
+  match p with
+  | PQVisit pre v acc _ =>
+      match o with
+      | CQuery _ (Some k) =>
+          if Nat.eqb (List.length acc) k then PUnwind (UDone (XFail (acc ++ [(pre, v)]))) else p'
+      | _ => p'
+      end
+  | _ => p'
+  end.
+
 Definition tstep_gen (strict : bool) (h : heap) (t : thread) : option (heap * thread) :=
   if is_done (tpc t) then None else
   match lockop_of t with
-  | LNone => let r := local_step h (tpc t) in Some (fst r, TH (top t) (snd r) (held t))
+  | LNone => let r := local_step h (tpc t) in
+             Some (fst r, TH (top t) (visit_override (top t) (tpc t) (snd r)) (held t))
   | LRLock n =>
       if can_rlock strict h n
       then Some (do_rlock h n, TH (top t) (after_lock (tpc t)) ((n, MR) :: held t))
